@@ -39,6 +39,17 @@ def run(R):
     R.assume("clause 1 is decided as exact algebra only (1a); floating-point error and termination of the retry loop are NOT decided")
     signalg.clause_sign(R, "C01-coset")
     signalg.clause_verify(R, "C01-verify-alg")
+    # premises shared with C07 and C04 (as rule instances of this property, so that its own check reports them): the reader
+    # accepts what the writer can produce — long unary runs, an encoding that fills its budget — and a generated key has an
+    # invertible f (otherwise h = g/f is not a public key for the secret basis and nothing it signs verifies)
+    from . import c07, c04
+    from fv.harness import Result
+    c07.clause_fit_partitions(R, rule="C01-codec")
+    R4 = Result("C04", R.tier)
+    c04.clause_gates(R4, long_probes=False)
+    bad4 = [o for o in R4.obl if o["status"] == "violation" and o["rule"] in ("C04-gate", "C04-flow")]
+    R.check(not bad4, "C01-key", "ntru_gen gates (rule instances of C04)", f"{sum(1 for o in R4.obl if o['status'] == 'discharged')} rule instances on the invertibility / norm gates and the flow of (f, g, F, G) hold",
+            "; ".join(f"[{o['rule']}] {o['site']}: {o['detail']}"[:300] for o in bad4[:3]), key="prem|key")
     for N in (512, 1024):
         spec = SPEC[N]
         inst = S.find(f"falcon::sign::<{N}>")
